@@ -76,6 +76,26 @@ pub fn c07(o: &Opts) -> Outcome {
             cases += 1;
             if let Some(w) = c07_one(&gap, 10, threads, 1e-7, false) { return Outcome { cases, witness: Some(w) }; }
         }
+        // an output directory that still holds chunk files of an earlier run (merge(false)): the new result must not absorb them
+        {
+            let sc = Scratch::new("ctr2");
+            let outd = sc.path("out"); std::fs::create_dir_all(&outd).unwrap();
+            let in_a = sc.path("a.fa"); let in_b = sc.path("b.fa");
+            write_fasta(&in_a, &[b"ACGGTCATTGACCAGTTAGGCATCAGGATCCATTGACAGGT".to_vec(), b"TTGACCATGGCATTAGACCAGG".to_vec()]);
+            write_fasta(&in_b, &[vec![b'A'; 16]]);
+            let (ia, ib, o1, o2) = (in_a.clone(), in_b.clone(), outd.clone(), outd.clone());
+            let r = guarded(move || {
+                let mut c = counter::CountComputer::new(ia, o1, 12); c.set_threads(4); c.count(); c.merge(false);
+                let mut d = counter::CountComputer::new(ib, o2, 12); d.set_threads(4); d.count(); d.merge(true);
+            });
+            cases += 1;
+            let text = std::fs::read_to_string(format!("{}/kmers.counts", outd)).unwrap_or_default();
+            let lines: Vec<&str> = text.lines().collect();
+            if r.is_err() || lines != vec!["0\t5"] {
+                return Outcome { cases, witness: Some(vec![("records".into(), "AAAAAAAAAAAAAAAA".into()), ("k".into(), "12".into()), ("threads".into(), "4".into()), ("mem".into(), "6".into()), ("acgt".into(), "false".into()),
+                    ("why".into(), format!("second run into a directory holding chunk files of an earlier run (merge(false)): got {:?}, expected [\"0\\t5\"]", &lines[..lines.len().min(4)]))]) };
+            }
+        }
         let few = vec![b"AAAAAAAAAAAAAAAAAAAA".to_vec(), b"AAAAAAAAAAAAAAA".to_vec(), b"ACG".to_vec()];
         for (threads, mem) in [(8usize, 6.0f64), (3, 1e-7)] {
             cases += 1;
